@@ -8,7 +8,9 @@ package http2_test
 // synctest bubble (c15srv harness): every sequence of a few raw frame templates
 // (valid ones and single-field corruptions), every truncation offset, broken
 // prefaces, sessions played while the client does not read (the server's
-// writer is stuck), and four flood macro-events. Oracle: no panic (serve
+// writer is stuck), sessions that keep sending frames on a stream whose
+// RST_STREAM is still queued behind the stuck writer, and four flood
+// macro-events. Oracle: no panic (serve
 // goroutine panics are caught by the package's panic hook, any other panic
 // kills the shard and is attributed through the breadcrumb), the serve loop
 // stays responsive, white-box bounds on queued control frames and handlers at
@@ -30,7 +32,7 @@ import (
 )
 
 type c16Case struct {
-	Cfg   string   `json:"cfg"`   // scheduler ("", rr, 7540, rand) + handler mode "-hw" (writes), "-hb" (blocks until cancelled), "-hi" (ignores cancellation) + "-blk" (client does not read)
+	Cfg   string   `json:"cfg"`   // scheduler ("", rr, 7540, rand) + handler mode "-hw" (writes), "-hb" (blocks until cancelled), "-hi" (ignores cancellation) + "-blk" (client does not read) + "-m1" (MAX_CONCURRENT_STREAMS 1 instead of 2)
 	Pre   string   `json:"pre"`   // preface variant: ok, none, short, wrong, nosettings
 	Items []string `json:"items"` // frame templates / flood macros
 	Cut   int      `json:"cut"`   // >0: the last item is truncated to its first Cut bytes
@@ -137,6 +139,40 @@ var c16Items = map[string][]byte{
 	"PUstream":   c16Frame(FrameType(0x10), 0, 1, append(c16U32(1), "u=1"...)),
 }
 
+// c16ResetTemplates: additional templates for the "queued-reset" sessions (a
+// stuck writer keeps the server's RST_STREAM queued while more frames arrive on
+// the reset stream). Rejected requests WITHOUT END_STREAM (the stream stays
+// "open" with no request body attached), a request with a Content-Length, valid
+// trailers, and DATA / WINDOW_UPDATE on a second stream.
+var c16ResetTemplates = map[string][]byte{
+	"Hnopatho":     c16Frame(FrameHeaders, 0x4, 1, []byte{0x82, 0x87}),
+	"Hbadpatho":    c16Frame(FrameHeaders, 0x4, 1, []byte{0x82, 0x87, 0x04, 0x01, 'x', 0x01, 0x01, 'h'}),
+	"Hbadconnecto": c16Frame(FrameHeaders, 0x4, 1, []byte{0x02, 0x07, 'C', 'O', 'N', 'N', 'E', 'C', 'T', 0x01, 0x01, 'h', 0x84}),
+	"Hprioselfo":   c16Frame(FrameHeaders, 0x24, 1, append(append(c16U32(1), 16), c16Req...)),
+	"Huppero":      c16Frame(FrameHeaders, 0x4, 1, append(append([]byte(nil), c16Req...), 0x00, 0x01, 'X', 0x01, 'v')),
+	"H1cl":         c16Frame(FrameHeaders, 0x4, 1, append(append([]byte(nil), c16Req...), 0x0f, 0x0d, 0x01, '1')),
+	"T1":           c16Frame(FrameHeaders, 0x5, 1, []byte{0x00, 0x01, 't', 0x01, 'v'}),
+	"D3m":          c16Frame(FrameData, 0, 3, []byte("xy")),
+	"WU3":          c16Frame(FrameWindowUpdate, 0, 3, c16U32(1)),
+}
+
+// c16ResetItems is the alphabet of the "queued-reset" sessions: every way to
+// use stream 1 for a request (accepted: open / ended / with a Content-Length;
+// rejected with a stream error at each stage: framer (invalid field name),
+// self-dependency, missing :path, unparsable :path, malformed CONNECT; with and
+// without END_STREAM), every frame type a client can then send on that stream
+// (each of which is also a second stream error in some state: DATA after
+// END_STREAM or beyond Content-Length, a second HEADERS block = trailers with
+// pseudo fields / without END_STREAM / on a half-closed stream, WINDOW_UPDATE
+// 0 and overflowing, PRIORITY on itself, unparsable PRIORITY_UPDATE), PING,
+// and a second stream (refused when MAX_CONCURRENT_STREAMS is 1) with its own
+// DATA / WINDOW_UPDATE / RST_STREAM follow-ups.
+var c16ResetItems = []string{
+	"Hnopatho", "Hnopath", "Hbadpatho", "Hbadconnecto", "Hprioselfo", "Huppero", "H1o", "H1", "H1cl",
+	"D1m", "D1", "T1", "R1", "WU1", "WUzero1", "WUbig1", "PRI1", "PRIself", "PU1", "PUbad", "UNK",
+	"PING", "H3o", "D3m", "WU3", "R3",
+}
+
 // the stream-oriented subset used for the deep sessions with a stuck writer
 var c16StreamItems = []string{"H1o", "H1", "H3", "D1m", "D1", "WUzero1", "WUbig1", "WU1", "R1", "PING", "SET", "SETw0"}
 
@@ -179,6 +215,9 @@ func c16ItemBytes(name string) []byte {
 		return c16Flood(name)
 	}
 	b, ok := c16Items[name]
+	if !ok {
+		b, ok = c16ResetTemplates[name]
+	}
 	if !ok {
 		panic("unknown item " + name)
 	}
@@ -260,8 +299,8 @@ func (r *c16Run) check(where string) {
 	s.mu.Lock()
 	maxRunning := s.maxRunning
 	s.mu.Unlock()
-	if uint32(maxRunning) > 2 {
-		r.fail("bounds/handlers-running-at-once", "%s: %d handlers ran at once, MAX_CONCURRENT_STREAMS=2", where, maxRunning)
+	if uint32(maxRunning) > s.o.MaxStreams {
+		r.fail("bounds/handlers-running-at-once", "%s: %d handlers ran at once, MAX_CONCURRENT_STREAMS=%d", where, maxRunning, s.o.MaxStreams)
 	}
 }
 
@@ -291,6 +330,8 @@ func c16Exec(t testing.TB, w *vx.W, cs c16Case) {
 			o.Sched = p
 		case p == "blk":
 			blocked = true
+		case p == "m1":
+			o.MaxStreams = 1
 		case p == "hw" || p == "hb" || p == "hi":
 			hmode = p
 		}
@@ -545,7 +586,9 @@ func TestVerif_C16(t *testing.T) {
 		names = sortedNames
 		seqLen := vx.Pick(c, 2, 3)
 		blkLen := 4
-		c.Rule(fmt.Sprintf("sessions over %d raw frame templates (valid frames of every type and single-field corruptions: lengths, stream ids, flags, padding, HPACK garbage, limits): (frames) valid preface+SETTINGS then every sequence of <=%d templates, item by item and as one burst followed by an immediate hang-up, handler writing / handler blocking; (truncate) every sequence of <=%d templates cut at every byte offset of its last template; (preface) no / short / wrong / split preface and missing SETTINGS before every template; (stuck-writer) every sequence of <=%d templates of a 12-template stream subset while the client does not read, for each of the four write schedulers (quick: length-4 sessions on the RFC 7540 scheduler only), then the client reads again; (floods) %d x PING / SETTINGS / HEADERS+RST_STREAM / empty CONTINUATION with reading and non-reading client on all four schedulers; each session on a fresh real server in its own synctest bubble; non-trivial = session ran to its end-of-session probe", len(names), seqLen, vx.Pick(c, 1, 2), blkLen, c16FloodN))
+		rstLen := vx.Pick(c, 3, 4)
+		rstBlockers := vx.Pick(c, []string{"PING"}, []string{"PING", "SET"})
+		c.Rule(fmt.Sprintf("sessions over %d raw frame templates (valid frames of every type and single-field corruptions: lengths, stream ids, flags, padding, HPACK garbage, limits): (frames) valid preface+SETTINGS then every sequence of <=%d templates, item by item and as one burst followed by an immediate hang-up, handler writing / handler blocking; (truncate) every sequence of <=%d templates cut at every byte offset of its last template; (preface) no / short / wrong / split preface and missing SETTINGS before every template; (stuck-writer) every sequence of <=%d templates of a 12-template stream subset while the client does not read, for each of the four write schedulers (quick: length-4 sessions on the RFC 7540 scheduler only), then the client reads again; (queued-reset) the client stops reading, a PING (thorough: PING or SETTINGS) is answered so that the writer is blocked in a flush and every RST_STREAM the server produces stays queued, then every sequence of <=%d templates of a %d-template alphabet — requests on stream 1 accepted (open / END_STREAM / Content-Length 1) and rejected with a stream error at every stage (invalid field name in the framer, self-dependency, no :path, unparsable :path, malformed CONNECT; with and without END_STREAM), then every frame type on that stream (DATA with/without END_STREAM, trailers and repeated HEADERS, RST_STREAM, WINDOW_UPDATE 1 / 0 / overflowing, PRIORITY, PRIORITY on itself, PRIORITY_UPDATE valid / unparsable, unknown type), PING, and a second stream with DATA / WINDOW_UPDATE / RST_STREAM — with MAX_CONCURRENT_STREAMS 2 and 1 (second stream refused) on all four schedulers (length-%d sessions: after PING on the default RFC 9218 scheduler with MAX_CONCURRENT_STREAMS 2 only), then the client reads again; (floods) %d x PING / SETTINGS / HEADERS+RST_STREAM / empty CONTINUATION with reading and non-reading client on all four schedulers; each session on a fresh real server in its own synctest bubble; non-trivial = session ran to its end-of-session probe", len(names), seqLen, vx.Pick(c, 1, 2), blkLen, rstLen, len(c16ResetItems), rstLen, c16FloodN))
 		c.Assume("\"bounded time\" is 30 s of synctest fake time; a session that stops in the middle of a frame may leave the server waiting for the rest (no read timeout is configured), which counts as serving; after GOAWAY without error the server is still required to answer PING or to have closed")
 		c.Assume("panics on the serve goroutine are observed through the package's testHookOnPanic (the connection is torn down instead of the process); panics on any other goroutine kill the shard and are attributed by the driver (crash_is_violation)")
 		opts := vx.Opts{Serial: true, Crumb: true}
@@ -566,6 +609,33 @@ func TestVerif_C16(t *testing.T) {
 					})
 					if !ok {
 						return
+					}
+				}
+			}
+		}, func(w *vx.W, cs c16Case) { c16RunCase(c, w, cs) })
+		// queued-reset: the client has stopped reading and a PING has been
+		// answered, so the server's writer is blocked in a flush and every
+		// RST_STREAM the server produces stays queued (stream.resetQueued)
+		// while the following frames are processed.
+		vx.Enumerate(c, "queued-reset", opts, func(yield0 func(c16Case) bool) {
+			yield := c15Yield(c, yield0)
+			for n := 1; n <= rstLen; n++ {
+				for _, sc := range scheds {
+					for _, m := range []string{"", "-m1"} {
+						for _, blocker := range rstBlockers {
+							if n == rstLen && (sc != "" || m != "" || blocker != "PING") {
+								continue // the deepest level on one configuration only
+							}
+							ok := vx.Strings(c16ResetItems, n, n, func(items []string) bool {
+								if !c16PlausibleReset(items) {
+									return true
+								}
+								return yield(c16Case{Cfg: sc + "-hw-blk" + m, Pre: "ok", Items: append([]string{blocker}, items...)})
+							})
+							if !ok {
+								return
+							}
+						}
 					}
 				}
 			}
@@ -664,6 +734,32 @@ func TestVerif_C16(t *testing.T) {
 			}
 		}, func(w *vx.W, cs c16Case) { c16RunCase(c, w, cs) })
 	})
+}
+
+// c16PlausibleReset prunes queued-reset sessions that send a non-opening frame
+// on stream 1 or 3 before any HEADERS frame has used that stream id (connection
+// errors on an idle stream, covered by the "frames" part). PRIORITY and
+// PRIORITY_UPDATE are legal for idle streams and are not pruned; a second
+// HEADERS block on a used stream id is a trailers block and is not pruned.
+func c16PlausibleReset(items []string) bool {
+	used1, used3 := false, false
+	for _, it := range items {
+		switch it {
+		case "Hnopatho", "Hnopath", "Hbadpatho", "Hbadconnecto", "Hprioselfo", "Huppero", "H1o", "H1", "H1cl":
+			used1 = true
+		case "H3o":
+			used3 = true
+		case "D1m", "D1", "T1", "R1", "WU1", "WUzero1", "WUbig1", "UNK":
+			if !used1 {
+				return false
+			}
+		case "D3m", "WU3", "R3":
+			if !used3 {
+				return false
+			}
+		}
+	}
+	return true
 }
 
 // c16PlausibleStream prunes stuck-writer sessions that touch stream 1 before it
